@@ -44,6 +44,12 @@ PROPS = {
         kani_quick=[], kani_thorough=[],
         design_ref="DESIGN.md section 4, C14",
     ),
+    "C10": dict(
+        title="Rounding a datetime yields the correct multiple of the increment for every mode",
+        verus=["round"],
+        kani_quick=[], kani_thorough=[],
+        design_ref="DESIGN.md section 4, C10",
+    ),
 }
 
 NOT_APPLICABLE = {
@@ -53,4 +59,4 @@ NOT_APPLICABLE = {
 
 # properties with a design but no committed check yet (kept current as the build proceeds)
 NOT_YET = {p: "check not built yet in this session (design in DESIGN.md section 4); not claimed" for p in
-           ["C05", "C06", "C07", "C08", "C09", "C10", "C11", "C12", "C13", "C16", "C17", "C18", "C20"]}
+           ["C05", "C06", "C07", "C08", "C09", "C11", "C12", "C13", "C16", "C17", "C18", "C20"]}
